@@ -3,6 +3,7 @@ from __future__ import annotations
 
 import ast
 
+from .. import efg as _efg
 from ..pyfacts import AnalysisError, src
 from ..genfacts import GenFacts, GEN
 from .. import forms as F
@@ -201,7 +202,7 @@ def run(repo, chk):
         for n in ast.walk(fn):
             if isinstance(n, ast.Call) and src(n.func).startswith('asm.') and src(n.func) != 'asm.State' and n.args \
                     and src(n.args[0]) in ('self.defeat', 'self.try_fp'):
-                ok = fname in ('gen_block', 'gen_stmts') and src(n.func) == 'asm.Mov'
+                ok = fname in gf.owners(('gen_block', 'gen_stmts')) and src(n.func) == 'asm.Mov'
                 chk.expect(ok, 'C02.T3', f'{fname}::{src(n)[:60]}', 'only Mov in the try/stop arm and the exit arms may write '
                            'the defeat word / try_fp', GEN, n.lineno)
 
@@ -212,7 +213,7 @@ def run(repo, chk):
         chk.floor(f'{arm} paths', len(paths), 2)
         bad = None
         for p, ev in paths:
-            conds = {e.text: e.truth for e in ev if e.kind == 'cond'}
+            conds = _efg.Conds(ev)
             ctext = f'self.effective_defeat != {target}'
             if ctext not in conds:
                 bad = f'no decision `{ctext}` on the path'
@@ -263,7 +264,7 @@ def run(repo, chk):
     for p, ev in gf.inlined('gen_func'):
         if p.outcome == 'raise':
             continue
-        conds = {e.text: e.truth for e in ev if e.kind == 'cond'}
+        conds = _efg.Conds(ev)
         fd = [src(e.value) for e in ev if e.kind == 'assign' and e.target == 'self.func_defeat']
         ed = [src(e.value) for e in ev if e.kind == 'assign' and e.target == 'self.effective_defeat']
         is_def = conds.get('csig.name.flavor == ast.Flavor.DEFEAT')
@@ -280,7 +281,7 @@ def run(repo, chk):
     pp = arm_paths(gf, 'gen_block', 'PreemptBlock')
     chk.floor('preempt paths', len(pp), 2)
     for p, ev in pp:
-        conds = {e.text: e.truth for e in ev if e.kind == 'cond'}
+        conds = _efg.Conds(ev)
         virt = conds.get(F.DEFEAT_COND)
         seq = [ev[i] for i in items_of(ev)]
         want = [lambda e: is_emit(e, 'asm.Jump', 'do_preempt')]
